@@ -41,7 +41,7 @@ type SubscriptionsState interface {
 type SessionMetadatasState interface {
 	Create(id string, clientID string, connectedAt int64, lwt *packet.Publish, mountpoint string) error
 	Get(id string) (api.SessionMetadatas, error)
-	ByClientID(clientID string) (api.SessionMetadatas, error)
+	ByClientID(mountPoint string, clientID string) (api.SessionMetadatas, error)
 	ByPeer(peer uint64) []api.SessionMetadatas
 	All() []api.SessionMetadatas
 	Delete(id string) error
